@@ -350,11 +350,16 @@ func parseV5Manifest(r io.Reader) (manifestContents, error) {
 		return manifestContents{}, fmt.Errorf("Could not parse GC generation hash: %s", slices[3])
 	}
 
+	root, ok := hash.MaybeParse(slices[2])
+	if !ok {
+		return manifestContents{}, fmt.Errorf("Could not parse root hash: %s", slices[2])
+	}
+
 	return manifestContents{
 		manifestVers: StorageVersion,
 		nbfVers:      slices[0],
 		lock:         lock,
-		root:         hash.Parse(slices[2]),
+		root:         root,
 		gcGen:        gcGen,
 		specs:        specs,
 	}, nil
@@ -436,11 +441,16 @@ func parseV4Manifest(r io.Reader) (manifestContents, error) {
 		return manifestContents{}, fmt.Errorf("Could not parse lock hash: %s", slices[1])
 	}
 
+	root, ok := hash.MaybeParse(slices[2])
+	if !ok {
+		return manifestContents{}, fmt.Errorf("Could not parse root hash: %s", slices[2])
+	}
+
 	return manifestContents{
 		manifestVers: storageVersion4,
 		nbfVers:      slices[0],
 		lock:         ad,
-		root:         hash.Parse(slices[2]),
+		root:         root,
 		specs:        specs,
 	}, nil
 }
